@@ -120,6 +120,21 @@ def mk_replay(desc, frame, peaks, upsample, fail):
 
 def replay(body):
     a = body['args']
+    if 'huge_window' in a:
+        from libertem_blobfinder.common import patterns as pat
+        h = a['huge_window']
+        pattern = pat.Circular(radius=3, search=h['search'])
+        fn = cc.process_frames_fast if 'fast' in body.get('call', '') else cc.process_frames_full
+        try:
+            o = fn(pattern, np.array(h['frames'], dtype=h['dtype']), np.asarray(h['peaks']))
+            fail = well_formed(tuple(x[0] for x in o), h['peaks'], pattern.get_crop_size(), False, body.get('call', ''))
+        except Exception as e:  # noqa
+            fail = 'raised %s: %s' % (type(e).__name__, e)
+        print(json.dumps({'failure_now': fail}, indent=1))
+        if fail:
+            print('VIOLATION property=C04 replay=(given)')
+            return 1
+        return 0
     pattern = cl.pattern_from_desc(a['pattern'])
     fail = stmt_failure(pattern, np.array(a['frame'], dtype=np.float32), a['peaks'], a['upsample'])
     print(json.dumps({'failure_now': fail}, indent=1))
@@ -132,7 +147,7 @@ def replay(body):
 def run(ctx):
     rng = ctx.rng
     ctx.check_theorems()
-    ctx.check_generated(['eval', 'qpat', 'qus', 'k', 'kelev', 'kcrop', 'ksrceval', 'ksrccrop'])
+    ctx.check_generated(['eval', 'qpat', 'qus', 'k', 'kelev', 'kcrop', 'ksrceval', 'ksrccrop', 'blocks'])
 
     # (K1) integer output buffers: Eval.store_int vs numpy for the dtypes the batch helpers return
     pattern, desc = cl.rand_pattern(rng, cmax=3, kinds=['RadialGradient'])
@@ -211,6 +226,23 @@ def run(ctx):
             sig = 'process_frames_full: uint16 centers wrap around' if 'wrap-around' in fail and 'process_frames_full' in fail else fail
             ctx.violation('input', fail, mk_replay(desc, frame, peaks, upsample, fail), signature=sig)
             break
+    # a single window larger than the 1/2 MB crop-buffer budget (one buffer must still be allocated): float64 frames with
+    # crop size >= 129, float32 frames with crop size >= 182, through the batch entry points
+    from libertem_blobfinder.common import patterns as pat
+    for dt, search in (('float64', 129.0), ('float32', 182.0), ('float64', 128.0)):
+        pattern = pat.Circular(radius=3, search=search)
+        c = pattern.get_crop_size()
+        frames = rng.poisson(3, size=(1, 30, 36)).astype(dt)
+        peaks = [(15, 18), (4, 30)]
+        for name, fn in (('process_frames_fast', cc.process_frames_fast), ('process_frames_full', cc.process_frames_full)):
+            try:
+                o = fn(pattern, frames, np.asarray(peaks))
+                fail = well_formed(tuple(x[0] for x in o), peaks, c, False, '%s(search=%s, %s frames)' % (name, search, dt))
+            except Exception as e:  # noqa
+                fail = '%s(search=%s, %s frames) raised %s: %s' % (name, search, dt, type(e).__name__, e)
+            ctx.count(2, key=('huge window', name, dt, search))
+            if fail:
+                ctx.violation('input', fail, {'kind': 'input', 'call': name, 'args': {'huge_window': {'dtype': dt, 'search': search, 'frames': frames.tolist(), 'peaks': peaks}}, 'failure': fail})
     ctx.extra['oracle_cases'] = nS
     ctx.run_modes()
     return ctx.finish(
